@@ -202,6 +202,11 @@ func (c *Check) Finish() int {
 			nontrivial++
 		}
 	}
+	if os.Getenv("D2VERIF_LIST") != "" {
+		for _, o := range c.Obs {
+			fmt.Printf("  LIST %-10s %-40s [%s] %s :: %s%s\n", o.Status, o.Where, o.Rule, o.Key, o.How, o.Detail)
+		}
+	}
 	for i, b := range c.broken {
 		nviol++
 		path := filepath.Join(vioDir, fmt.Sprintf("%s-broken-%02d.json", c.ID, i+1))
